@@ -53,6 +53,9 @@ func watchdog(d time.Duration, fn func()) (bool, string) {
 
 const c18CallBound = 20 * time.Second
 
+// c18Vary varies timing parameters from one enumerated combination to the next.
+var c18Vary int32
+
 type c18Env struct {
 	w      *kit.World
 	srv    *kit.Server
@@ -231,6 +234,50 @@ var c18Failing = []struct {
 		// the call itself succeeds; what has to fail is nothing: this entry is about the
 		// follow-up calls while the client reconnects
 		return fmt.Errorf("(no error expected)")
+	}},
+	{"echo:notification-that-cannot-be-applied-and-connection-lost", func(e *c18Env) error {
+		// two reasons to tear the connection down at once: the server (the proxy) answers an
+		// echo with an update the client cannot apply - the client's error consumer decides
+		// to disconnect - and the connection is lost a moment later (0-3 ms, varied from
+		// combination to combination) - the disconnect handler runs
+		mctx, mcancel := e.ctx()
+		mon := e.c.NewMonitor(client.WithTable(e.w.NewModel("T1")))
+		mon.Method = ovsdb.ConditionalMonitorRPC
+		_, merr := e.c.Monitor(mctx, mon)
+		mcancel()
+		if merr != nil {
+			return fmt.Errorf("harness: monitor_cond on T1: %w", merr)
+		}
+		e.mu.Lock()
+		cookie, method := e.lastCookie, e.lastMethod
+		sent := make(chan struct{}, 1)
+		e.inject = func(dir int, m string, id json.RawMessage, raw json.RawMessage) ([]json.RawMessage, []json.RawMessage) {
+			if dir == kit.C2S && m == "echo" && cookie != nil {
+				select {
+				case sent <- struct{}{}:
+				default:
+				}
+				return []json.RawMessage{}, []json.RawMessage{bogusNotification(method, cookie)}
+			}
+			return nil, nil
+		}
+		e.mu.Unlock()
+		defer func() { e.mu.Lock(); e.inject = nil; e.mu.Unlock() }()
+		delay := []time.Duration{0, 100 * time.Microsecond, 300 * time.Microsecond, time.Millisecond, 3 * time.Millisecond}[int(atomic.AddInt32(&c18Vary, 1))%5]
+		go func() {
+			select {
+			case <-sent:
+				time.Sleep(delay)
+				e.px.CutAll()
+			case <-time.After(3 * time.Second):
+			}
+		}()
+		ctx, cancel := e.ctx()
+		defer cancel()
+		if err := e.c.Echo(ctx); err != nil {
+			return err
+		}
+		return fmt.Errorf("(the echo was answered after all)")
 	}},
 	{"transact:validation", func(e *c18Env) error {
 		ctx, cancel := e.ctx()
